@@ -58,6 +58,9 @@ type Plan struct {
 	// request is attributable to the op its client is executing.
 	Clients int  `json:"clients"`
 	Ops     []Op `json:"ops"`
+	// NoBuilderDomain: the node's specification lacks DOMAIN_APPLICATION_BUILDER (the signer then has no
+	// domain type for registrations: it may refuse them, it may not sign them over anything else).
+	NoBuilderDomain bool `json:"no_builder_domain,omitempty"`
 }
 
 var opKinds = []string{
@@ -160,6 +163,7 @@ func gen(p *simrt.Tape) any {
 		}
 		pl.Ops = append(pl.Ops, op)
 	}
+	pl.NoBuilderDomain = p.Pct(12)
 	return pl
 }
 
@@ -388,6 +392,9 @@ func exec(plan any, sched *simrt.Tape) *sim.Outcome {
 
 	res := sim.Run(sched, time.Hour, 40000, nil, func(ctx context.Context) {
 		cp := &env.ChainProviders{C: chain}
+		if pl.NoBuilderDomain {
+			cp.OmitSpec = []string{"DOMAIN_APPLICATION_BUILDER"}
+		}
 		mon := nullmetrics.New()
 		var accs []e2wtypes.Account
 		for i, k := range pl.Kinds {
@@ -581,6 +588,9 @@ func kindsOf(pl *Plan, op *Op) []int {
 // account of a group is not a multi-signer, and the protecting/multi/distributed
 // stubs have no Sign method.
 func refused(pl *Plan, op *Op) bool {
+	if op.Kind == "registration" && pl.NoBuilderDomain {
+		return true
+	}
 	if !batchKind(op.Kind) || op.Kind == "attestations" {
 		return false
 	}
